@@ -120,7 +120,7 @@ def run(ctx):
             docs.append(dict(base, **{f: k}))
     docs += [dict(base, w='list'), dict(base, w='scalar')]
     # documents that give as little as possible, in already-canonical form (strings only): every default must still be filled in
-    mini = dict(base, i='absent', b='absent', l='absent', o='absent')
+    mini = dict(base, i='absent', b='absent', l='absent', o='absent', p='absent', m='absent')
     docs += [dict(mini), dict(mini, s='numstr'), dict(mini, o='min'), dict(mini, o='full'), dict(mini, l='empty'), dict(mini, b='true'), dict(mini, i='num')]
     # the schema without properties: the empty map, one surplus key of each kind, and non-map documents
     ebase = {'s': 'absent', 'i': 'absent', 'b': 'absent', 'l': 'absent', 'o': 'absent', 'x': 'absent', 'p': 'absent', 'm': 'absent', 'w': 'map', 'schema': 'empty'}
